@@ -19,7 +19,8 @@ RULE = ('Hypothesis: type-correct, name-resolved OAL function bodies (<= 12 stat
         'chains of 1-3 hops (with where), if/elif/else, bounded while, for each, break, continue, return (incl. nested), '
         'control stop; a second family over a reflexive LINKED association (persons employ persons using employments, two halves told '
         "apart by their phrases): relate / unrelate ... across R6.'phrase' using m in either direction and phrase, unrelate also from the other end, "
-        'read back from both ends through the link class; expressions over all arithmetic / comparison / boolean operators, cardinality / empty / not_empty. '
+        'read back from both ends through the link class; a third family of chain probes: from the k-th instance of a class, select any / many along fixed chains of two and three '
+        'steps (to-many steps first, with and without where) over the drawn population, so that dead ends before a result are common; expressions over all arithmetic / comparison / boolean operators, cardinality / empty / not_empty. '
         'Oracle: the same AST executed by the reference evaluator (pbt/oalref.py) over the plain relational shadow: '
         'equal return value and equal final population (instances per class in order, every attribute, links from both '
         'directions). Programs the reference cannot give a meaning to are discarded and counted. non-trivial = program '
@@ -291,6 +292,89 @@ def run_linked(case, res=None):
         res.case([text], nt, sample=text if nt and len(res.samples) < 2 else None, classes=sorted('f:' + f for f in features) + ['compared-linked'])
 
 
+# -- multi-step chains from every instance: what `select any / one / many ... related by` reaches ---------------------------
+CHAINS = {'A': [[('L', 4), ('D', 4)], [('B', 1), ('A', 1)], [('D', 4), ('L', 4)], [('C', 2), ('A', 2), ('B', 1)]],
+          'D': [[('L', 4), ('A', 4)], [('A', 4), ('B', 1)], [('L', 4), ('A', 4), ('C', 2)]],
+          'B': [[('A', 1), ('L', 4)], [('A', 1), ('D', 4)], [('A', 1), ('L', 4), ('D', 4)]]}
+
+
+def chain_cases():
+    # few starting instances, many link instances, more links on the near half than on the far one: a first partner that leads
+    # nowhere while a later one does is the common case
+    rows = [[c, {'n': k} if c != 'T2' else {}] for c, cnt in (('A', 2), ('B', 3), ('C', 2), ('P', 1), ('D', 2), ('L', 5), ('S', 1), ('T1', 1), ('T2', 1))
+            for k in range(cnt)]
+    links = st.lists(st.tuples(st.sampled_from([0, 0, 1, 3, 3, 3, 4, 4]), st.integers(0, 5), st.integers(0, 5)), min_size=8, max_size=24)
+    pops = links.map(lambda ls: {'rows': rows, 'links': [list(l) for l in ls]})
+    return st.fixed_dictionaries({'chains': st.just(True), 'pop': pops,
+                                  'picks': st.lists(st.tuples(st.sampled_from(['A', 'D', 'B']), st.integers(0, 2), st.integers(0, 3),
+                                                              st.sampled_from(['any', 'any', 'many']), st.booleans()), min_size=2, max_size=6)})
+
+
+def chain_program(case):
+    from .oalgen import N, block
+    V = lambda n: N('VariableAccessNode', variable_name=n)
+    I = lambda k: N('IntegerNode', value=str(k))
+    stmts = [N('AssignmentNode', variable_access=V('acc'), expression=I(0))]
+    for k, (cls, which, ch, card, where) in enumerate(case['picks']):
+        chain = CHAINS[cls][ch % len(CHAINS[cls])]
+        last = chain[-1][0]
+        # the which-th instance of the class (instances are told apart by position only): walk the extent
+        stmts.append(N('SelectFromNode', cardinality='many', variable_name='all%d' % k, key_letter=cls))
+        stmts.append(N('AssignmentNode', variable_access=V('i%d' % k), expression=I(0)))
+        nav = N('NavigationListNode', children=[N('NavigationStepNode', key_letter=kl, rel_id='R%d' % rel, phrase='') for kl, rel in chain])
+        if where and last in ('A', 'B', 'D'):
+            sel = N('SelectRelatedWhereNode', cardinality=card, variable_name='r%d' % k, handle=V('h%d' % k), navigation_chain=nav,
+                    where_clause=N('BinaryOperationNode', left=N('FieldAccessNode', handle=N('SelectedAccessNode'), name='n'),
+                                   operator='>=', right=I(0)))
+        else:
+            sel = N('SelectRelatedNode', cardinality=card, variable_name='r%d' % k, handle=V('h%d' % k), navigation_chain=nav)
+        if card == 'many':
+            use = [N('AssignmentNode', variable_access=V('acc'), expression=N(
+                'BinaryOperationNode', left=N('BinaryOperationNode', left=V('acc'), operator='*', right=I(7)), operator='+',
+                right=N('UnaryOperationNode', operator='cardinality', operand=V('r%d' % k))))]
+        else:
+            use = [N('IfNode', expression=N('UnaryOperationNode', operator='not_empty', operand=V('r%d' % k)),
+                     block=block([N('AssignmentNode', variable_access=V('acc'), expression=N(
+                         'BinaryOperationNode', left=N('BinaryOperationNode', left=V('acc'), operator='*', right=I(7)), operator='+',
+                         right=N('BinaryOperationNode', left=N('FieldAccessNode', handle=V('r%d' % k), name='n'), operator='+', right=I(100))))]),
+                     elif_list=N('ElIfListNode', children=[]),
+                     else_clause=N('ElseNode', block=block([N('AssignmentNode', variable_access=V('acc'), expression=N(
+                         'BinaryOperationNode', left=V('acc'), operator='*', right=I(5)))])))]
+        body = [N('IfNode', expression=N('BinaryOperationNode', left=V('i%d' % k), operator='==', right=I(which)),
+                  block=block([N('AssignmentNode', variable_access=V('h%d' % k), expression=V('e%d' % k)), sel] + use),
+                  elif_list=N('ElIfListNode', children=[]), else_clause=None),
+                N('AssignmentNode', variable_access=V('i%d' % k), expression=N('BinaryOperationNode', left=V('i%d' % k), operator='+', right=I(1)))]
+        stmts.append(N('ForEachNode', instance_variable_name='e%d' % k, set_variable_name='all%d' % k, block=block(body)))
+    stmts.append(N('ReturnNode', expression=V('acc')))
+    return N('BodyNode', block=block(stmts))
+
+
+def run_chains(case, res=None):
+    ast = chain_program(case)
+    text = text_of(ast)
+    info = dict(case, text=text)
+    domain, w, _real = build(case['pop'])
+    # does a pick start from an instance whose first partner leads nowhere while a later one does?
+    try:
+        want = Evaluator(w).run_body(ast)
+    except Discard as d:
+        if res is not None:
+            res.discarded['chains: ' + d.reason] += 1
+        return
+    try:
+        with TimeLimit(20):
+            got = interpret.run_function(domain, 'check', text, {})
+    except TimeLimit.Expired:
+        raise Violation('interpreter-does-not-terminate', info, 'no result within 20 s')
+    except Exception as e:
+        raise Violation('interpreter-exception:' + exc_bucket(e), info, '%r\n%s' % (e, text))
+    real, back = compare_population(domain, w.sh, info, 'chains')
+    if not value_eq(got, want, back):
+        raise Violation('return-value:chains', info, 'returned %r, reference %r\n%s' % (got, want, text))
+    if res is not None:
+        res.case([text, case['pop']], want not in (0, None), classes=['compared-chains'])
+
+
 def selftest():
     from .oalgen import N, block
     w = World(SCHEMA)
@@ -336,6 +420,16 @@ def run(ctx):
             raise Violation('harness-exception:' + exc_bucket(e), case, repr(e))
 
     hyp_run(ctx, res, linked_cases(), lbody, ctx.pick(300, 3000), label='linked')
+
+    def cbody(case):
+        try:
+            run_chains(case, res)
+        except Violation:
+            raise
+        except Exception as e:
+            raise Violation('harness-exception:' + exc_bucket(e), case, repr(e))
+
+    hyp_run(ctx, res, chain_cases(), cbody, ctx.pick(300, 3000), label='chains')
     total = res.evaluations + sum(res.discarded.values())
     if total and sum(res.discarded.values()) > 0.4 * total:
         from .build import HarnessError
@@ -344,7 +438,9 @@ def run(ctx):
 
 
 def replay(case):
-    if case.get('linked'):
+    if case.get('chains'):
+        run_chains(case)
+    elif case.get('linked'):
         run_linked(case)
     else:
         run_case(case)
